@@ -119,9 +119,17 @@ def gen_schedule(rng, opts, status_targets):
         val = rng.choice(['OPEN', 'CLOSED'])
         if kind == 'time':
             out.append({'kind': 'time', 'name': name, 'time': pick_time(rng, opts), 'target': tgt, 'attr': 'status', 'value': val})
+            if rng.random() < 0.2:
+                out[-1]['daily'] = True          # a sim-time control that repeats every 24 hours (API only)
         elif kind == 'clock':
             ct = pick_clock(rng, opts)
             out.append({'kind': 'time', 'name': name, 'time': ct, 'clock': True, 'daily': True, 'target': tgt, 'attr': 'status', 'value': val})
+            if rng.random() < 0.3:
+                # once only (API only): the first time the clock shows ct, which is t = 0 when ct is the start clock time
+                out[-1]['daily'] = False
+                if rng.random() < 0.35:
+                    out[-1]['time'] = opts['start'] + rng.choice([0, 0, 0, 1, -1, opts['hyd']])
+                    out[-1]['time'] %= DAY
         elif kind == 'setting_time':
             out.append({'kind': 'time', 'name': name, 'time': pick_time(rng, opts), 'target': 'V', 'attr': 'setting',
                         'value': rng.choice([0.5, 2.0, 20.0, 150.0])})
@@ -230,9 +238,16 @@ def timeline(schedule, opts, initial):
                 t = first
                 while t <= dur:
                     add(t, 1, 3, order, cs)
+                    if not cs.get('daily', True):
+                        break                   # once: the first time the clock shows the configured time
                     t += DAY
-            elif 0 <= cs['time'] <= dur:
-                add(cs['time'], 1, 3, order, cs)
+            else:
+                t = cs['time']
+                while 0 <= t <= dur:
+                    add(t, 1, 3, order, cs)
+                    if not cs.get('daily', False):
+                        break
+                    t += DAY
     k = 1
     prev = 0
     while k * rs <= dur:
@@ -373,8 +388,15 @@ def run_case(c, rng):
             return a == b
         return abs(a - b) <= 1e-9 * max(1.0, abs(b))
 
+    # once-only clock-time controls and daily sim-time controls exist only in the API (the INP format has neither): EPANET says
+    # nothing about their targets
+    api_only = set((cs['target'], cs['attr']) for cs in schedule
+                   if cs['kind'] == 'time' and bool(cs.get('daily', bool(cs.get('clock')))) != bool(cs.get('clock')))
+    if api_only:
+        c.count('schedules_with_api_only_controls')
+
     def epanet_value(key, t):
-        if epa is None:
+        if epa is None or key in api_only:
             return None
         ln, attr = key
         try:
